@@ -61,10 +61,40 @@ m*dt (dt = step of the base axis), m in {2, 5}:
     then the points of the bath axis, where the tensor is given; what a longer sub-step or a
     cut-off looked up on the coarser axis should use is not part of the property).
   * dephasing: the TD tensor of the case on the axes (., m*dt) with Nref = m does the steps of
-    the bath axis: analytic solution and first-order bound of the bath axis at the stored points.
+    the bath axis: analytic solution and first-order bound of the bath axis at the stored points;
+    with Nref = 1 it does one step of the length m*dt per stored point (bound of that step).
 The refined axes have REFNC stored points (quick 4, thorough 8; with a tensor cut-off time as
 many as needed to contain it: the propagator looks the cut-off time up on its own axis).  The
 shared-initial-state histories are run on the base axis only.
+
+Time-axis alphabet (td, dephasing).  The four-index and the operator routine each COUNT the bath
+steps in one propagation step from the two step lengths.  Besides the axes with the step 1 fs
+(every multiple exact) the sections contain bath axes with non-dyadic steps dt (quick 0.2, 0.7;
+thorough 0.1, 0.2, 0.4, 0.7 fs) x ratios m (quick 3, 7; thorough 2, 3, 5, 7) x the two doubles
+a caller can mean by "m x dt": the floating point product m*dt and the decimal number (0.6 for
+3 x 0.2) -- the quotient with dt is then not the integer m, from below or from above
+(0.6/0.2 = 2.99..96, (3*0.2)/0.2 = 3.00..04, (3*0.7)/0.7 = 2.99..96) -- x every admissible
+Nref in {1, m} x both ways of requesting it.  Oracles as for the step refinement; a refusal
+("Incompatible number of refinement steps") of a refinement that divides m is a violation;
+dephasing also runs Nref = 1 on the coarser axes (one step of the length m*dt with the tensor
+taken at one bath point inside it: first-order bound of the step m*dt).
+
+Expansion order (every section that propagates).  propagate(rho, method=M), M in {default,
+short-exp-2, short-exp-4, short-exp-6}: the default call is the base run; the three named
+orders are a complete sub-product inside every grid point -- spanning set x 3 routes x 3
+bases on a short axis (REFNC points, step of the base axis), ONE propagator per route serving
+all methods.  Route agreement is evaluated per method (class R), and for time-independent
+generators every route must equal the Taylor polynomial of the REQUESTED order of the
+reference Liouvillian.  Dephasing: each order on the first third of the bath axis against the
+analytic solution with the bound whose Taylor remainder is that order's.  (redfield, thorough:
+the order is in addition a dimension of the grid, with the full histories.)
+
+Conversion after the propagator exists (redfield, lindblad, td).  Histories of ONE propagator
+object: created with the operator-form tensor [-> propagate in B0, B0 in {-, out, H, X}] ->
+tensor.convert_2_tensor() in B1 -> propagate in every basis B: 4 x 3 fresh tensors/propagators
+per grid point, general initial state, short axis.  Every call after the conversion must give
+what the four-index form gives in that basis and what the same propagator gave there before
+the conversion; the call before it what the operator-form route gives.
 
 Tolerances: R = 1e-10 * scale for every identity between representations; (d) computed bound
 exp(D+E)-1 (D = dt * int|C|, E = accumulated Taylor remainder), see lineshape_ob.
@@ -197,29 +227,57 @@ def _sequences(depth):
 
 NREFS = (2, 5)            # refinements besides Nref = 1
 VIAS = ("arg", "set")     # propagate(rho, Nref=k) / setDtRefinement(k); propagate(rho)
+STEPFORMS = ("product", "decimal")
+METHODS = ("short-exp-2", "short-exp-4", "short-exp-6")      # besides the default
+ORDER = {None: 4, "short-exp": 4, "short-exp-2": 2, "short-exp-4": 4, "short-exp-6": 6}
 
 
-def _refinements(td):
-    """All (m, k, via): propagation axis with the step m*dt (dt = step of the base axis, which
-    is the bath axis of a time-dependent tensor), k sub-steps per stored step, requested `via`.
+def _coarse_step(dt, m, form):
+    """The step "m times dt" of a propagation axis as a caller can write it: the floating
+    point product m*dt, or the decimal number (what one types: 0.6 for 3 x 0.2).  The two are
+    different doubles for non-dyadic dt (3*0.2 = 0.6000000000000001), and their quotient with
+    dt is then not the integer m: 0.6/0.2 = 2.9999999999999996, (3*0.7)/0.7 likewise."""
+    p = int(m) * float(dt)
+    if form == "product":
+        return p
+    if form == "decimal":
+        return float("%.12g" % p)
+    raise isolation.HarnessError("unknown form of the step: " + str(form))
+
+
+def _stepforms(dt, m):
+    """the distinct doubles that stand for m x dt"""
+    out = ["product"]
+    if _coarse_step(dt, m, "decimal") != _coarse_step(dt, m, "product"):
+        out.append("decimal")
+    return out
+
+
+def _refinements(td, ratios=NREFS, dt=1.0):
+    """All (m, k, via, form): propagation axis with the step m x dt written as `form` (dt =
+    step of the base axis, which is the bath axis of a time-dependent tensor), k sub-steps per
+    stored step, requested `via`.
     Time-independent generators: k = m (the sub-steps are the steps of the base axis; the axis
-    ratio means nothing to a constant tensor).  Time-dependent tensors: every k in {1, 2, 5}
-    that divides m -- the four-index routine samples the tensor on the bath axis with the
-    stride m/k and refuses every other k ("Incompatible number of refinement steps")."""
+    ratio means nothing to a constant tensor).  Time-dependent tensors: every k in {1, m}
+    -- the four-index routine samples the tensor on the bath axis with the
+    stride m/k and refuses every k that does not divide m ("Incompatible number of refinement
+    steps")."""
     out = []
-    for m in NREFS:
-        if td:
-            out.append((m, 1, "default"))
-        for via in VIAS:
-            out.append((m, m, via))
+    for m in ratios:
+        for form in _stepforms(dt, m):
+            if td:
+                out.append((m, 1, "default", form))
+            for via in VIAS:
+                out.append((m, m, via, form))
     return out
 
 
 def _vlab(var, td):
-    m, k, via = var
+    m, k, via, form = var
+    f = "" if form == "product" else "-" + form
     if td:
-        return "step-ratio=%d/Nref=%d%s" % (m, k, "" if k == 1 else "-" + via)
-    return "Nref=%d-%s" % (k, via)
+        return "step-ratio=%d%s/Nref=%d%s" % (m, f, k, "" if k == 1 else "-" + via)
+    return "Nref=%d-%s%s" % (k, via, f)
 
 
 def _refine_spec(case):
@@ -230,15 +288,16 @@ def _refine_spec(case):
     return {"ncmax": int(case["refnc"])}
 
 
-def _coarse_length(nt, m, ncmax, dt=1.0, cutoff=None):
+def _coarse_length(nt, m, ncmax, dt=1.0, cutoff=None, step=None):
     """points of the axis with the step m*dt that lies inside the base axis of nt points: at
     most ncmax (0: all that fit), but with a tensor cut-off time enough of them that the axis
     contains it (the propagator looks the cut-off time up on ITS axis and raises "Value out of
-    bounds" otherwise) and one step more."""
+    bounds" otherwise) and one step more.  step: the double that stands for m*dt on that axis."""
     fit = (int(nt) - 1) // m + 1
     nc = min(fit, int(ncmax)) if ncmax else fit
     if cutoff:
-        need = int(numpy.floor(float(cutoff) / (m * float(dt)))) + 2
+        step = m * float(dt) if step is None else float(step)
+        need = int(numpy.floor(float(cutoff) / step + 1.0e-9)) + 2
         if need > fit:
             raise isolation.HarnessError("cut-off time beyond the refined axis")
         nc = max(nc, need)
@@ -274,6 +333,17 @@ def _propagate(acc, kind, B, k, P, rho, kwargs, nref, cut, sfx="", tag="general"
         acc.add("b/propagate/%s/%s/%s-form-raises-%s%s" % (kind, B, k, type(e).__name__, sfx),
                 "propagate() with the %s form raised %s: %s (basis %s, initial state stored "
                 "as %s)" % (k, type(e).__name__, str(e)[:160], B, before.dtype))
+        return None
+    except Exception as e:
+        # the driver requests only refinements the axis ratio admits (Nref divides the number
+        # of bath steps in one propagation step): a refusal means the routine counted another
+        # number of bath steps
+        if "Incompatible number of refinement steps" not in str(e):
+            raise
+        acc.add("b/refine/%s/%s/%s-form-refuses-admissible-refinement%s" % (kind, B, k, sfx),
+                "propagate() with the %s form refused Nref = %d on an axis whose step is a "
+                "multiple of the bath step that Nref divides (basis %s): %s"
+                % (k, nref, B, str(e)[:120]))
         return None
     _unchanged(acc, "b/propagate/%s/%s/%s-form-alters-initial-state%s" % (kind, B, k, sfx),
                before, rho, "%s form, basis %s, initial state %s" % (k, B, tag))
@@ -453,6 +523,9 @@ def _check_forms(acc, kind, mk_op, mk_tensor, ham, Xop, N, ref_from_op, prop):
     Top = mk_op()
     Tt = mk_tensor()
     fresh = {B1: mk_op() for B1 in BASES}
+    if prop.get("variants"):
+        # expansion orders and conversion-after-construction histories (default call only)
+        prop = dict(prop, methods=METHODS, late=_late_tensors(mk_op))
     if not Top.as_operators or Tt.as_operators:
         raise isolation.HarnessError("forms not as requested")
     Tref = ref_from_op(Top)
@@ -550,7 +623,7 @@ def _check_refined(acc, kind, B, variants, conv_key, states, base, ref, ham, Xop
                     got[(vlab, tag, r)] = _arr(ev.data)
                     objs[(vlab, tag, r)] = ev
     for var, vlab, nc, vp, vc in variants:
-        m, k, via = var
+        m, k, via, form = var
         pick = slice(0, m * (nc - 1) + 1, m)
         for tag, s in states:
             g = {r: got[(vlab, tag, r)] for r in ROUTES if (vlab, tag, r) in got}
@@ -558,7 +631,8 @@ def _check_refined(acc, kind, B, variants, conv_key, states, base, ref, ham, Xop
                 if x.shape[0] != nc:
                     acc.add("b/refine/%s/%s/%s/%s/stored-points" % (kind, r, B, vlab),
                             "%d stored points on an axis of %d points" % (x.shape[0], nc))
-            what = "state %s, axis step x%d, %d sub-steps (%s), basis %s" % (tag, m, k, via, B)
+            what = ("state %s, axis step x%d (%s), %d sub-steps (%s), basis %s"
+                    % (tag, m, form, k, via, B))
             if "tensor" in g:
                 sc = max(1.0, float(numpy.max(numpy.abs(g["tensor"]))))
                 if "op" in g:
@@ -598,6 +672,146 @@ def _check_refined(acc, kind, B, variants, conv_key, states, base, ref, ham, Xop
                              scale=max(1.0, float(numpy.max(numpy.abs(ref[tag])))))
 
 
+def _check_methods(acc, kind, B, methods, ns, routes, states, refm, ham, Xop, cut):
+    """Expansion order of the integrator, propagate(rho, method=...), in one basis (one entry
+    of the context): the spanning set is propagated with all three routes and every method on
+    the short axis of ns points (ONE propagator per route serves all methods).
+
+    Route agreement per method (class R: both forms must apply the polynomial of the SAME
+    order).  Time-independent generators: the stored points equal the Taylor polynomial of the
+    REQUESTED order L of the reference Liouvillian (refm[method][state], read after the context
+    is left)."""
+    from quantarhei.qm import ReducedDensityMatrix
+    rhos = {(meth, tag, r): ReducedDensityMatrix(data=s.copy())
+            for meth in methods for tag, s in states for r in ROUTES}
+    got, objs = {}, {}
+    with _basis(B, ham, Xop):
+        for meth in methods:
+            for tag, s in states:
+                for r in ROUTES:
+                    ev = _propagate(acc, kind, B, r, routes[r], rhos[(meth, tag, r)],
+                                    {"method": meth}, 1, cut, sfx="/method=" + meth, tag=tag)
+                    if ev is None:
+                        continue
+                    got[(meth, tag, r)] = _arr(ev.data)
+                    objs[(meth, tag, r)] = ev
+    for meth in methods:
+        for tag, s in states:
+            g = {r: got[(meth, tag, r)] for r in ROUTES if (meth, tag, r) in got}
+            for r, x in g.items():
+                if x.shape[0] != ns:
+                    acc.add("b/method/%s/%s/%s/%s/stored-points" % (kind, r, B, meth),
+                            "%d stored points on an axis of %d points" % (x.shape[0], ns))
+            what = "state %s, method %s (order %d), basis %s" % (tag, meth, ORDER[meth], B)
+            if "tensor" in g:
+                sc = max(1.0, float(numpy.max(numpy.abs(g["tensor"]))))
+                if "op" in g:
+                    acc.same("b/method/%s/%s/%s/op-vs-tensor" % (kind, B, meth),
+                             "b.method.forms", g["op"], g["tensor"],
+                             "operator form vs four-index form: " + what, scale=sc)
+                if "conv" in g:
+                    acc.same("b/method/%s/%s/%s/converted-vs-tensor" % (kind, B, meth),
+                             "b.method.forms", g["conv"], g["tensor"],
+                             "converted form vs four-index form: " + what, scale=sc)
+            elif "op" in g and "conv" in g:
+                sc = max(1.0, float(numpy.max(numpy.abs(g["op"]))))
+                acc.same("b/method/%s/%s/%s/op-vs-converted" % (kind, B, meth),
+                         "b.method.forms", g["op"], g["conv"],
+                         "operator form vs converted form: " + what, scale=sc)
+            if tag in refm.get(meth, {}):
+                for r in g:
+                    acc.same("b/method-absolute/%s/%s/%s/%s" % (kind, r, B, meth),
+                             "b.method.absolute", _arr(objs[(meth, tag, r)].data),
+                             refm[meth][tag], "%s form, %s vs Taylor polynomial of that order "
+                             "of the reference Liouvillian" % (r, what),
+                             scale=max(1.0, float(numpy.max(numpy.abs(refm[meth][tag])))))
+
+
+PRES = (None,) + BASES    # propagation before the conversion: none / in each basis
+
+
+def _late_tensors(mk_op):
+    """one fresh operator-form tensor per history (pre-conversion call, conversion basis)"""
+    return {(pre, B1): mk_op() for B1 in BASES for pre in PRES}
+
+
+def _check_late_conversion(acc, kind, late, lprops, ns, gen, freshres, ham, Xop, cut):
+    """Histories of ONE propagator object whose tensor changes its representation:
+
+        propagator created with the tensor in operator form
+        [ -> propagate in basis B0 ]                 B0 in {-, out, H, X}
+        -> tensor.convert_2_tensor() in basis B1     B1 in {out, H, X}
+        -> propagate in EVERY basis B                (out, H, X in turn, the same propagator)
+
+    i.e. 4 x 3 tensors/propagators, 3 calls after the conversion each; the general initial
+    state, one fresh initial-state object per call, short axis of ns points.  All results are
+    read after the contexts are left.  Every call after the conversion must reproduce what the
+    four-index form gives in that basis for a fresh object (prefix of the base run), and, for
+    B = B0, what the same propagator gave before the conversion; the call before the conversion
+    must be the operator-form result.  The steps of the 12 histories are interleaved (all
+    first calls, then all conversions, then all later calls), each context is entered once."""
+    from quantarhei.qm import ReducedDensityMatrix
+
+    # one fresh initial-state object per call, created outside the contexts (site basis)
+    rho_pre = {key: ReducedDensityMatrix(data=gen.copy()) for key in lprops}
+    rho_post = {(key, B): ReducedDensityMatrix(data=gen.copy()) for key in lprops
+                for B in BASES}
+    pre_ev, post_ev = {}, {}
+    for B0 in BASES:
+        with _basis(B0, ham, Xop):
+            for (pre, B1), P in lprops.items():
+                if pre == B0:
+                    pre_ev[(pre, B1)] = _propagate(acc, kind, B0, "op", P, rho_pre[(pre, B1)],
+                                                   {}, 1, cut, sfx="/before-conversion")
+    for B1 in BASES:
+        with _basis(B1, ham, Xop):
+            for (pre, b1), T in late.items():
+                if b1 == B1:
+                    T.convert_2_tensor()
+    for (pre, B1), T in late.items():
+        if T.as_operators:
+            acc.add("b/convert-after-propagator/%s/converted-in-%s/flag" % (kind, B1),
+                    "as_operators still True after convert_2_tensor")
+    for B in BASES:
+        with _basis(B, ham, Xop):
+            for key, P in lprops.items():
+                post_ev[(key, B)] = _propagate(acc, kind, B, "converted-after-construction", P,
+                                               rho_post[(key, B)], {}, 1, cut,
+                                               sfx="/after-conversion")
+    pre_res = {k: None if ev is None else _arr(ev.data) for k, ev in pre_ev.items()}
+    for (pre, B1), r in pre_res.items():
+        exp = freshres.get(pre, {}).get("op")
+        if r is None or exp is None:
+            continue
+        acc.same("b/convert-after-propagator/%s/before-conversion/%s" % (kind, pre),
+                 "b.late", r, exp[:ns], "propagator created with the operator form, called in "
+                 "basis %s before the conversion vs the operator-form route"
+                 % pre, scale=max(1.0, float(numpy.max(numpy.abs(exp[:ns])))))
+    for ((pre, B1), B), ev in post_ev.items():
+        if ev is None:
+            continue
+        r = _arr(ev.data)
+        hist = ("propagator created with the operator form%s, tensor converted in %s, "
+                "propagated in %s" % ("" if pre is None else ", called in %s" % pre, B1, B))
+        if r.shape[0] != ns:
+            acc.add("b/convert-after-propagator/%s/converted-in-%s/propagated-in-%s/"
+                    "stored-points" % (kind, B1, B), "%d stored points on an axis of %d"
+                    % (r.shape[0], ns))
+            continue
+        exp = freshres.get(B, {}).get("tensor")
+        if exp is not None:
+            acc.same("b/convert-after-propagator/%s/converted-in-%s/propagated-in-%s/"
+                     "differs-from-four-index-form" % (kind, B1, B), "b.late", r, exp[:ns],
+                     hist + " vs the four-index form in that basis",
+                     scale=max(1.0, float(numpy.max(numpy.abs(exp[:ns])))))
+        if pre == B and pre_res.get((pre, B1)) is not None:
+            b = pre_res[(pre, B1)]
+            acc.same("b/convert-after-propagator/%s/converted-in-%s/propagated-in-%s/"
+                     "differs-from-result-before-conversion" % (kind, B1, B), "b.late", r, b,
+                     hist + " vs the result of the same propagator in that basis before the "
+                     "conversion", scale=max(1.0, float(numpy.max(numpy.abs(b)))))
+
+
 def _check_propagation(acc, kind, forms, conv, ham, Xop, N, prop, Tref, td=False):
     """forms: {"op": T, "tensor": T}; conv: {basis: converted tensor} (used in its own basis).
     Every propagation of the spanning set is done with all forms in all bases (one fresh
@@ -626,17 +840,46 @@ def _check_propagation(acc, kind, forms, conv, ham, Xop, N, prop, Tref, td=False
     # before the first context is entered
     variants = []
     if prop.get("refine") and nref == 1:
-        for var in _refinements(td):
+        for var in _refinements(td, prop.get("ratios") or NREFS, ta.step):
+            cstep = _coarse_step(ta.step, var[0], var[3])
             nc = _coarse_length(ta.length, var[0], prop["refine"].get("ncmax"), ta.step,
-                                prop.get("cutoff") if td else None)
-            tac = systems.time_axis(nc, var[0] * ta.step)
+                                prop.get("cutoff") if td else None, step=cstep)
+            tac = systems.time_axis(nc, cstep)
             vp = {k: ReducedDensityMatrixPropagator(tac, ham, T) for k, T in forms.items()}
             vc = {B: ReducedDensityMatrixPropagator(tac, ham, T) for B, T in conv.items()}
             variants.append((var, _vlab(var, td), nc, vp, vc))
+    # short axis (step of the base axis; with a tensor cut-off time long enough to contain it)
+    # of the expansion-order variants and of the conversion-after-construction histories: the
+    # scheme is causal, a run on it is a prefix of the run on the base axis
+    methods = tuple(prop.get("methods") or ())
+    late = prop.get("late") or {}
+    ns, mroutes, refm, lprops = None, {}, {}, {}
+    if (methods or late) and not (prop.get("refine") and nref == 1 and not kwargs):
+        raise isolation.HarnessError("variants on the short axis need the default call")
+    if methods or late:
+        ns = _coarse_length(ta.length, 1, prop["refine"].get("ncmax"), ta.step,
+                            prop.get("cutoff") if td else None)
+        tas = systems.time_axis(ns, ta.step)
+        if methods:
+            # ONE propagator per route for all methods: the method is an argument of the call
+            mroutes = {k: ReducedDensityMatrixPropagator(tas, ham, T) for k, T in forms.items()}
+            for B, T in conv.items():
+                mroutes[("conv", B)] = ReducedDensityMatrixPropagator(tas, ham, T)
+            if ref:
+                for meth in methods:
+                    refm[meth] = {tag: RA.taylor_propagate(prop["H"], Tref, s, tas.step, ns,
+                                                           L=ORDER[meth])
+                                  for tag, s in states}
+        for key, T in late.items():
+            if not T.as_operators:
+                raise isolation.HarnessError("late-conversion tensor not in operator form")
+            # the propagator is created while the tensor is held as operators
+            lprops[key] = ReducedDensityMatrixPropagator(tas, ham, T)
     # initial states of the shared-object histories: (storage label, matrix, sequence length)
     gen = _general_state(N)
     gens = [("complex", gen, hist),
             ("real-dtype", numpy.array(gen.real, dtype=numpy.float64), max(1, hist - 1))]
+    freshres = {}         # basis -> route -> general state propagated from a fresh object
     for B in BASES:
         routes = {"op": props["op"], "tensor": props["tensor"], "conv": cprops[B]}
         keep = []
@@ -680,6 +923,11 @@ def _check_propagation(acc, kind, forms, conv, ham, Xop, N, prop, Tref, td=False
         if variants:
             _check_refined(acc, kind, B, variants, B, states, dict(keep), ref, ham, Xop,
                            kwargs, cut, td)
+        # ---- expansion order: all routes again with every method, on the short axis -------
+        if methods:
+            _check_methods(acc, kind, B, methods, ns,
+                           {"op": mroutes["op"], "tensor": mroutes["tensor"],
+                            "conv": mroutes[("conv", B)]}, states, refm, ham, Xop, cut)
         # ---- one initial-state OBJECT handed to several propagations -------------------
         # expected result of route k for the general state: linear combination of the
         # spanning-set results of that route (all read after the context is left: gauge free)
@@ -705,6 +953,8 @@ def _check_propagation(acc, kind, forms, conv, ham, Xop, N, prop, Tref, td=False
             for seq, res in runs:
                 if seq[0] not in fresh and res[0] is not None:
                     fresh[seq[0]] = res[0]
+            if label == "complex":
+                freshres[B] = fresh
             for k, r in fresh.items():
                 if k in lin:
                     acc.same("b/linearity/%s/%s/%s%s" % (kind, k, B, sfx), "b.linearity", r,
@@ -732,6 +982,9 @@ def _check_propagation(acc, kind, forms, conv, ham, Xop, N, prop, Tref, td=False
                              "(%s storage, basis %s): the %s form does not reproduce its result "
                              "for a fresh object" % (i + 1, "->".join(seq), label, B, k),
                              scale=sc)
+    # ---- conversion AFTER the propagator was created -------------------------------------
+    if late:
+        _check_late_conversion(acc, kind, late, lprops, ns, gen, freshres, ham, Xop, cut)
 
 
 # ---------------------------------------------------------------------------
@@ -759,6 +1012,9 @@ def eval_redfield(case):
                                                "short-exp-6": 6}[case["method"]],
             "method": case["method"], "nref": case["nref"], "hist": case.get("hist", 2),
             "refine": _refine_spec(case)}
+    if prop["method"] == "short-exp":
+        prop["method"] = None              # the default of propagate()
+    prop["variants"] = bool(prop["refine"] and prop["method"] is None and prop["nref"] == 1)
     Tref = _check_forms(acc, "redfield", lambda: S.tensor(False, True),
                         lambda: S.tensor(False, False), S.ham, S.Xop, S.N, _ref_redfield, prop)
     # non-secular content: the tensor couples populations and coherences
@@ -808,6 +1064,7 @@ def eval_lindblad(case):
     H = numpy.array(ham.data, dtype=float, copy=True)
     prop = {"ta": ta, "H": H, "L": 4, "method": None, "nref": 1, "hist": case.get("hist", 2),
             "refine": _refine_spec(case)}
+    prop["variants"] = bool(prop["refine"])
     Tref = RA.gksl_tensor(Ks, rates, N)
     _check_forms(acc, "lindblad", lambda: LindbladForm(ham, sbi(), as_operators=True),
                  lambda: LindbladForm(ham, sbi(), as_operators=False), ham, Xop, N,
@@ -832,6 +1089,7 @@ def eval_td(case):
     TIt = S.tensor(False, False, cutoff)
     TIo = S.tensor(False, True, cutoff)
     fresh = {B1: S.tensor(True, True, cutoff) for B1 in BASES}    # see _check_forms
+    late = _late_tensors(lambda: S.tensor(True, True, cutoff))
     tscale = max(float(numpy.max(numpy.abs(_arr(TIt.data)))), 1.0e-300)
 
     # ---- (c) exact limits -----------------------------------------------------
@@ -887,7 +1145,12 @@ def eval_td(case):
 
     # ---- (b) propagation -----------------------------------------------------------
     prop = {"ta": S.ta, "H": None, "L": 4, "method": None, "nref": 1, "cutoff": cutoff,
-            "hist": case.get("hist", 2), "refine": _refine_spec(case)}
+            "hist": case.get("hist", 2), "refine": _refine_spec(case),
+            "ratios": case.get("ratios")}
+    if prop["refine"]:
+        prop["late"] = late
+        if case.get("methods", True):
+            prop["methods"] = METHODS
     _check_propagation(acc, "td", {"op": TDo, "tensor": TDt}, conv, ham, Xop, N, prop, None,
                        td=True)
     return {"nontrivial": _nontrivial_system(case),
@@ -913,16 +1176,68 @@ def _deph_M(case):
     return 10 if case["matsubara"] is None else int(case["matsubara"])
 
 
+def _deph_coherences(w, bt, N):
+    """every coherence of the uncoupled sites: (label, i, j, frequency in 1/cm, baths entering
+    the bound, exact solution as a function of the times)"""
+    out = []
+    n = len(w)
+    for m in range(n):
+        def f(t, m=m):
+            return LS.coherence(t, w[m], [bt[m]]) / N
+        out.append(("site%d-ground" % m, m + 1, 0, w[m], [bt[m]], f))
+        out.append(("ground-site%d" % m, 0, m + 1, w[m], [bt[m]],
+                    lambda t, f=f: numpy.conj(f(t))))
+        for k in range(m + 1, n):
+            def f2(t, m=m, k=k):
+                return LS.coherence(t, w[m] - w[k], [bt[m]], [bt[k]]) / N
+            out.append(("site%d-site%d" % (m, k), m + 1, k + 1, w[m] - w[k], [bt[m], bt[k]], f2))
+            out.append(("site%d-site%d" % (k, m), k + 1, m + 1, w[m] - w[k], [bt[m], bt[k]],
+                        lambda t, f2=f2: numpy.conj(f2(t))))
+    return out
+
+
+def _deph_rows(cohs, ev, t, step, L, pick=None):
+    """per coherence (label, numerical, exact, bound, exponent) at the stored times: t = times
+    of the axis of the integration steps (length `step`), pick = stored points of it"""
+    rows = []
+    memo = {}
+    for (label, i, j, wv, baths, f) in cohs:
+        key = (wv, tuple(baths))
+        if key not in memo:
+            bnd, D, E = LS.first_order_bound(t, step, wv, baths, L=L)
+            expo = numpy.abs(wv * LS.CM2INT * t)
+            for b in baths:
+                expo = expo + numpy.abs(LS.g(t, *b))
+            memo[key] = (bnd, expo)
+        bnd, expo = memo[key]
+        ex = f(t)
+        if pick is not None:
+            ex, bnd, expo = ex[pick], bnd[pick], expo[pick]
+        rows.append((label, ev[:, i, j], ex, bnd, expo))
+    return rows
+
+
+def _deph_pdev(ev, N):
+    return float(numpy.max(numpy.abs(numpy.array([ev[:, i, i] for i in range(N)]) - 1.0 / N)))
+
+
 def _deph_run(case, nt, dt, acc, again=False, refine=False):
-    """Propagate the uniform superposition with the TD Redfield tensor; return per coherence
-    (label, numerical, exact, bound) and the population deviation.  The initial-state object
-    must come back bit-identical; again=True: it is propagated a second time and must give the
-    same dynamics.  refine=True: the same tensor (bath axis (nt, dt)) is also propagated on the
-    axes with the step m*dt with Nref = m sub-steps, m in NREFS, requested in both ways; returned
-    as {label: (m, evolution)}."""
+    """Propagate the uniform superposition with the TD Redfield tensor; returns a dict with
+    "rows" = per coherence (label, numerical, exact, bound, exponent), "pdev" = the population
+    deviation, "N".  The initial-state object must come back bit-identical; again=True: it is
+    propagated a second time and must give the same dynamics.
+    refine=True: the same tensor (bath axis (nt, dt)) is also propagated
+      * on the axes with the step m x dt (m in case["ratios"] or NREFS; m x dt written as the
+        floating point product and, where that is another double, as the decimal number) with
+        Nref = m sub-steps requested in both ways -- these do the steps of the bath axis -- and
+        with Nref = 1 -- one step of the length m*dt with the tensor taken at one point of the
+        bath axis inside it: bound of the step m*dt  ("refined": {label: (rows, pdev)});
+      * with every expansion order of METHODS on the first third of the bath axis, bound with
+        that order's Taylor remainder ("methods": {method: (rows, pdev)})."""
     from quantarhei.qm import ReducedDensityMatrixPropagator, ReducedDensityMatrix
     w = [float(x) for x in case["w"]]
     n = len(w)
+    form = case["form"]
     specs = []
     for (lam, tau) in _deph_baths(case):
         b = {"ftype": case["ftype"], "reorg": lam, "cortime": tau, "T": float(case["T"])}
@@ -930,118 +1245,148 @@ def _deph_run(case, nt, dt, acc, again=False, refine=False):
             b["matsubara"] = int(case["matsubara"])
         specs.append(b)
     S = _System(case, energies=w, J=[[0.0] * n for _ in range(n)], bath=specs, nt=nt, dt=dt)
-    TD = S.tensor(True, case["form"] == "operators")
+    TD = S.tensor(True, form == "operators")
     N = S.N
-    rho = ReducedDensityMatrix(data=numpy.full((N, N), 1.0 / N, dtype=numpy.complex128))
+
+    def rho0():
+        return ReducedDensityMatrix(data=numpy.full((N, N), 1.0 / N, dtype=numpy.complex128))
+
+    rho = rho0()
     P = ReducedDensityMatrixPropagator(S.ta, S.ham, TD)
     before = numpy.array(rho.data, copy=True)
     ev = _arr(P.propagate(rho).data)
-    _unchanged(acc, "d/%s/alters-initial-state" % case["form"], before, rho,
-               "TD tensor as %s, %d steps of %g fs" % (case["form"], nt, dt))
+    _unchanged(acc, "d/%s/alters-initial-state" % form, before, rho,
+               "TD tensor as %s, %d steps of %g fs" % (form, nt, dt))
     if again:
         ev2 = _arr(P.propagate(rho).data)
-        acc.same("d/%s/shared-initial-state/second-propagation" % case["form"], "d.shared",
+        acc.same("d/%s/shared-initial-state/second-propagation" % form, "d.shared",
                  ev2, ev, "second propagate() of the SAME initial-state object (TD tensor as "
-                 "%s) vs the first" % case["form"], scale=1.0)
-        _unchanged(acc, "d/%s/alters-initial-state" % case["form"], before, rho,
-                   "TD tensor as %s, second call" % case["form"])
-    refined = {}
-    if refine:
-        for m in NREFS:
-            if (nt - 1) % m:
-                raise isolation.HarnessError("refined axis does not end with the bath axis")
-            for via in VIAS:
-                vlab = _vlab((m, m, via), True)
-                rho_v = ReducedDensityMatrix(data=numpy.full((N, N), 1.0 / N,
-                                                             dtype=numpy.complex128))
-                Pv = ReducedDensityMatrixPropagator(systems.time_axis((nt - 1) // m + 1, m * dt),
-                                                    S.ham, TD)
-                if via == "set":
-                    Pv.setDtRefinement(m)
-                    evv = Pv.propagate(rho_v)
-                else:
-                    evv = Pv.propagate(rho_v, Nref=m)
-                _unchanged(acc, "d/%s/alters-initial-state/%s" % (case["form"], vlab), before,
-                           rho_v, "TD tensor as %s, axis step x%d with %d sub-steps (%s)"
-                           % (case["form"], m, m, via))
-                refined[vlab] = (m, _arr(evv.data))
+                 "%s) vs the first" % form, scale=1.0)
+        _unchanged(acc, "d/%s/alters-initial-state" % form, before, rho,
+                   "TD tensor as %s, second call" % form)
     t = numpy.array(S.ta.data, dtype=float)
     M = _deph_M(case)
     bt = [(lam, tau, float(case["T"]), M) for (lam, tau) in _deph_baths(case)]
-    out = []
-    rout = {vlab: [] for vlab in refined}
+    cohs = _deph_coherences(w, bt, N)
+    out = {"rows": _deph_rows(cohs, ev, t, dt, 4), "pdev": _deph_pdev(ev, N), "N": N,
+           "refined": {}, "methods": {}}
+    if not refine:
+        return out
+    pre = _deph_refkey(form)
+    for var in _refinements(True, case.get("ratios") or NREFS, dt):
+        m, k, via, sform = var
+        if (nt - 1) % m:
+            raise isolation.HarnessError("refined axis does not end with the bath axis")
+        vlab = _vlab(var, True)
+        rho_v = rho0()
+        Pv = ReducedDensityMatrixPropagator(
+            systems.time_axis((nt - 1) // m + 1, _coarse_step(dt, m, sform)), S.ham, TD)
+        try:
+            if via == "set":
+                Pv.setDtRefinement(k)
+                evv = Pv.propagate(rho_v)
+            elif via == "arg":
+                evv = Pv.propagate(rho_v, Nref=k)
+            else:
+                evv = Pv.propagate(rho_v)
+        except Exception as e:
+            if "Incompatible number of refinement steps" not in str(e):
+                raise
+            acc.add("%s/%s/refuses-admissible-refinement" % (pre, vlab),
+                    "propagate() refused Nref = %d on the axis with the step %r fs = %d x the "
+                    "bath step %r fs (TD tensor as %s): %s"
+                    % (k, _coarse_step(dt, m, sform), m, dt, form, str(e)[:100]))
+            continue
+        _unchanged(acc, "d/%s/alters-initial-state/%s" % (form, vlab), before,
+                   rho_v, "TD tensor as %s, axis step x%d (%s) with %d sub-steps (%s)"
+                   % (form, m, sform, k, via))
+        evv = _arr(evv.data)
+        if evv.shape[0] != (nt - 1) // m + 1:
+            acc.add("%s/%s/stored-points" % (pre, vlab), "%d stored points, %d expected"
+                    % (evv.shape[0], (nt - 1) // m + 1))
+            continue
+        if k == m:
+            # the sub-steps are the steps of the bath axis: its exact solution and bound
+            rows = _deph_rows(cohs, evv, t, dt, 4, pick=slice(None, None, m))
+        else:
+            # one step of m bath steps, tensor sampled once inside it
+            rows = _deph_rows(cohs, evv, t[::m], m * dt, 4)
+        out["refined"][vlab] = (rows, _deph_pdev(evv, N), k * dt if k == m else m * dt)
+    nm = (nt - 1) // 3 + 1
+    for meth in METHODS:
+        rho_m = rho0()
+        Pm = ReducedDensityMatrixPropagator(systems.time_axis(nm, dt), S.ham, TD)
+        evm = Pm.propagate(rho_m, method=meth)
+        _unchanged(acc, "d/%s/alters-initial-state/method=%s" % (form, meth), before, rho_m,
+                   "TD tensor as %s, method %s" % (form, meth))
+        evm = _arr(evm.data)
+        if evm.shape[0] != nm:
+            acc.add("d/%s/method=%s/stored-points" % (form, meth), "%d stored points, %d "
+                    "expected" % (evm.shape[0], nm))
+            continue
+        out["methods"][meth] = (_deph_rows(cohs, evm, t[:nm], dt, ORDER[meth]),
+                                _deph_pdev(evm, N))
+    return out
 
-    def add(label, i, j, ex, bnd, expo):
-        out.append((label, ev[:, i, j], ex, bnd, expo))
-        # the k = m sub-steps are the steps of the bath axis: exact solution and bound of the
-        # axis (nt, dt) at the stored points
-        for vlab, (mm, evv) in refined.items():
-            rout[vlab].append((label, evv[:, i, j], ex[::mm], bnd[::mm], expo[::mm]))
 
-    for m in range(n):
-        ex = LS.coherence(t, w[m], [bt[m]]) / N
-        bnd, D, E = LS.first_order_bound(t, dt, w[m], [bt[m]], L=4)
-        expo = numpy.abs(w[m] * LS.CM2INT * t) + numpy.abs(LS.g(t, *bt[m]))
-        add("site%d-ground" % m, m + 1, 0, ex, bnd, expo)
-        add("ground-site%d" % m, 0, m + 1, numpy.conj(ex), bnd, expo)
-        for k in range(m + 1, n):
-            ex = LS.coherence(t, w[m] - w[k], [bt[m]], [bt[k]]) / N
-            bnd, D, E = LS.first_order_bound(t, dt, w[m] - w[k], [bt[m], bt[k]], L=4)
-            expo = (numpy.abs((w[m] - w[k]) * LS.CM2INT * t) + numpy.abs(LS.g(t, *bt[m]))
-                    + numpy.abs(LS.g(t, *bt[k])))
-            add("site%d-site%d" % (m, k), m + 1, k + 1, ex, bnd, expo)
-            add("site%d-site%d" % (k, m), k + 1, m + 1, numpy.conj(ex), bnd, expo)
-    pops = numpy.array([ev[:, i, i] for i in range(N)]).T
-    pdev = float(numpy.max(numpy.abs(pops - 1.0 / N)))
-    if refine:
-        rpdev = {vlab: float(numpy.max(numpy.abs(numpy.array([evv[:, i, i] for i in range(N)])
-                                                 - 1.0 / N)))
-                 for vlab, (mm, evv) in refined.items()}
-        return out, pdev, N, rout, rpdev
-    return out, pdev, N
+def _deph_refkey(form):
+    return ("d/operators/coarser-propagation-axis" if form == "operators"
+            else "d/%s/refined" % form)
+
+
+def _deph_bound_check(acc, rows, key, clause, N, where):
+    """every coherence against exact * (bound + unit allowance); one violation per kind"""
+    for (lab, nu, e, b, xp) in rows:
+        kind = "optical" if "ground" in lab else "intersite"
+        acc.n += 1
+        err = numpy.abs(nu - e)
+        tol = numpy.abs(e) * (b + LS.UNIT_RTOL * xp) + RTOL / N
+        ratio = float(numpy.max(err / tol))
+        acc.worst(clause, ratio)
+        if not numpy.all(numpy.isfinite(nu)) or ratio > 1.0:
+            i = int(numpy.argmax(err / tol))
+            acc.add(key % kind, "coherence %s, %s: |rho_num - exp(-iwt-g(t))/N| = %.3g at "
+                    "stored step %d exceeds the bound %.3g (|exact| = %.3g)"
+                    % (lab, where, err[i], i, tol[i], abs(e[i])),
+                    {"err": float(err[i]), "tol": float(tol[i])})
 
 
 def eval_dephasing(case):
     acc = _Acc()
     form = case["form"]
     nt, dt = case["nt"], case["dt"]
-    rout, rpdev = {}, {}
-    if case.get("refine"):
-        coarse, pdev1, N, rout, rpdev = _deph_run(case, nt, dt, acc, again=True, refine=True)
-    else:
-        coarse, pdev1, N = _deph_run(case, nt, dt, acc, again=True)
-    fine, pdev2, _ = _deph_run(case, 2 * nt - 1, dt / 2.0, acc)
+    r1 = _deph_run(case, nt, dt, acc, again=True, refine=bool(case.get("refine")))
+    r2 = _deph_run(case, 2 * nt - 1, dt / 2.0, acc)
+    coarse, pdev1, N = r1["rows"], r1["pdev"], r1["N"]
+    fine, pdev2 = r2["rows"], r2["pdev"]
     digest = []
     # step refinement: the axis with the step m*dt and m sub-steps does the steps of the bath
-    # axis (nt, dt); the analytic solution and the first-order bound of that axis apply
-    pre = ("d/operators/coarser-propagation-axis" if form == "operators"
-           else "d/%s/refined" % form)
-    for vlab in sorted(rout):
-        for (lab, nu, e, b, xp) in rout[vlab]:
-            kind = "optical" if "ground" in lab else "intersite"
-            acc.n += 1
-            if nu.shape != e.shape:
-                acc.add("%s/%s/stored-points" % (pre, vlab), "%d stored points, %d expected"
-                        % (nu.shape[0], e.shape[0]))
-                continue
-            err = numpy.abs(nu - e)
-            tol = numpy.abs(e) * (b + LS.UNIT_RTOL * xp) + RTOL / N
-            ratio = float(numpy.max(err / tol))
-            acc.worst("d.refine.err/bound", ratio)
-            if not numpy.all(numpy.isfinite(nu)) or ratio > 1.0:
-                i = int(numpy.argmax(err / tol))
-                acc.add("%s/%s/%s/exceeds-first-order-bound" % (pre, vlab, kind),
-                        "coherence %s, TD tensor as %s on the axis with the step %g fs, %s: "
-                        "|rho_num - exp(-iwt-g(t))/N| = %.3g at stored step %d exceeds the "
-                        "bound %.3g of the sub-step %g fs (|exact| = %.3g)"
-                        % (lab, form, dt * (nt - 1) / max(1, nu.shape[0] - 1), vlab, err[i], i,
-                           tol[i], dt, abs(e[i])),
-                        {"err": float(err[i]), "tol": float(tol[i])})
+    # axis (nt, dt); the analytic solution and the first-order bound of that axis apply; with
+    # one step per stored point the bound of the step m*dt
+    pre = _deph_refkey(form)
+    for vlab in sorted(r1["refined"]):
+        rows, rpdev, h = r1["refined"][vlab]
+        _deph_bound_check(acc, rows, "%s/%s/%%s/exceeds-first-order-bound" % (pre, vlab),
+                          "d.refine.err/bound", N,
+                          "TD tensor as %s on the axis with the step %g fs, %s, bound of the "
+                          "integration step %g fs" % (form, dt * (nt - 1) / max(1, len(rows[0][1])
+                                                                             - 1), vlab, h))
         acc.n += 1
-        acc.worst("d.populations", rpdev[vlab] * N)
-        if not rpdev[vlab] <= RTOL / N * 10:
+        acc.worst("d.populations", rpdev * N)
+        if not rpdev <= RTOL / N * 10:
             acc.add("%s/%s/populations-not-constant" % (pre, vlab),
-                    "populations of uncoupled sites change by %.3g (%s)" % (rpdev[vlab], vlab))
+                    "populations of uncoupled sites change by %.3g (%s)" % (rpdev, vlab))
+    # expansion order: bound with the Taylor remainder of the requested order
+    for meth in sorted(r1["methods"]):
+        rows, mpdev = r1["methods"][meth]
+        _deph_bound_check(acc, rows, "d/%s/method=%s/%%s/exceeds-first-order-bound"
+                          % (form, meth), "d.method.err/bound", N,
+                          "TD tensor as %s, method %s, step %g fs" % (form, meth, dt))
+        acc.n += 1
+        acc.worst("d.populations", mpdev * N)
+        if not mpdev <= RTOL / N * 10:
+            acc.add("d/%s/method=%s/populations-not-constant" % (form, meth),
+                    "populations of uncoupled sites change by %.3g (method %s)" % (mpdev, meth))
     for (lab, num, ex, bnd, expo), (lab2, num2, ex2, bnd2, expo2) in zip(coarse, fine):
         kind = "optical" if "ground" in lab else "intersite"
         for tag, nu, e, b, xp in (("dt", num, ex, bnd, expo), ("dt/2", num2, ex2, bnd2, expo2)):
@@ -1203,6 +1548,28 @@ def td_cases(tier):
              "bathpat": ["sitewise"], "hist": [2 if tier == "quick" else 3],
              "refnc": [REFNC[tier]]}
     out += product(extra, _sys_ok)
+    if tier == "quick":
+        # expansion orders on tensors with a cut-off time (short axis = up to the cut-off
+        # time): thorough tier
+        for c in out:
+            if c["cutoff"] is not None:
+                c["methods"] = False
+    # the time-axis alphabet: non-dyadic bath steps dt and propagation steps m x dt written as
+    # the floating point product and as the decimal number (both are what a caller writes);
+    # their quotient with dt is then not exactly the integer m, from either side:
+    # 0.6/0.2 = 2.9999999999999996, (3*0.2)/0.2 = 3.0000000000000004, (3*0.7)/0.7 = 2.9999999999999996
+    if tier == "quick":
+        axis = {"sec": ["td"], "route": ["protocol"], "n": [2], "epat": ["distinct"],
+                "Jpat": ["chain"], "ftype": ["OverdampedBrownian"], "lam_tau": [[20.0, 50.0]],
+                "T": [300.0], "cutoff": [None, 0.5], "nt": [30], "dt": [0.2, 0.7],
+                "hist": [1], "refnc": [REFNC["quick"]], "ratios": [[3, 7]], "methods": [False]}
+    else:
+        axis = {"sec": ["td"], "route": ["protocol", "aggregate"], "n": [2, 3],
+                "epat": ["distinct"], "Jpat": ["chain"], "ftype": ["OverdampedBrownian"],
+                "lam_tau": [[20.0, 50.0]], "T": [300.0], "cutoff": [None, 0.5], "nt": [60],
+                "dt": [0.1, 0.2, 0.4, 0.7], "hist": [2], "refnc": [REFNC["thorough"]],
+                "ratios": [[2, 3, 5, 7]], "methods": [True]}
+    out += product(axis, _sys_ok)
     return out
 
 
@@ -1245,7 +1612,20 @@ def dephasing_cases(tier):
         if tier != "quick" and c["nt"] == 601 and (c["dt"] != 1.0 or len(c["w"]) > 1):
             return False
         return True
-    return product(dom, ok)
+    out = product(dom, ok)
+    # the time-axis alphabet (see td_cases): non-dyadic bath steps, step ratios 3 and 7
+    # (thorough: 2, 3, 5, 7), nt - 1 a multiple of every ratio
+    if tier == "quick":
+        axis = dict(dom, w=[[100.0, 260.0]], ftype=["OverdampedBrownian"],
+                    lam_tau=[[20.0, 50.0]], T=[300.0], matsubara=[None], nt=[211],
+                    dt=[0.2, 0.7], ratios=[[3, 7]])
+    else:
+        axis = dict(dom, route=["protocol"], w=[[100.0], [100.0, 260.0]],
+                    lam_tau=[[20.0, 50.0], [60.0, 100.0]], T=[300.0, 77.0],
+                    matsubara=[None, 2], nt=[211], dt=[0.1, 0.2, 0.4, 0.7],
+                    ratios=[[2, 3, 5, 7]])
+    out += product(axis, ok)
+    return out
 
 
 def cases(tier):
@@ -1266,8 +1646,15 @@ def run(run):
                 "propagate() the caller's initial state must be bit-identical; x step "
                 "refinement: Nref in {1, 2, 5} x {propagate(rho, Nref=k), setDtRefinement(k)} "
                 "for all three routes in the 3 bases on the axes with the step m*dt, m in "
-                "{2, 5} (time-dependent tensors: every admissible pair (m, Nref), Nref | m), "
-                "whole spanning set.  Non-trivial: "
+                "{2, 5} (time-dependent tensors: every admissible pair (m, Nref), Nref in "
+                "{1, m}), whole spanning set; x expansion order: method in {short-exp-2, "
+                "short-exp-4, short-exp-6} besides the default call, all three routes in the 3 "
+                "bases, whole spanning set, short axis; x histories of one propagator created "
+                "with the operator form: [propagate in B0 in {-, out, H, X}] -> "
+                "convert_2_tensor in B1 -> propagate in every basis (12 tensors); td and "
+                "dephasing: x time-axis alphabet = non-dyadic bath steps x step ratios x {m*dt "
+                "as floating point product, as decimal number} x Nref in {1, m} x way of "
+                "requesting it.  Non-trivial: "
                 "redfield/td = "
                 "resonance coupling != 0 (eigenbasis differs from the site basis); lindblad = "
                 "coupled Hamiltonian and at least one projector with i != j; dephasing = "
@@ -1300,6 +1687,23 @@ def run(run):
         "index of the bath axis: with a cut-off the refined run is NOT the bath-axis run, "
         "observed, not claimed either way); shared-initial-state histories are not multiplied "
         "with the refinements",
+        "expansion order: 'short-exp' (the default), 'short-exp-2', '-4', '-6' are the Taylor "
+        "polynomials of degree 4, 2, 4, 6 of the generator per (sub-)step (propagate() source); "
+        "the reference polynomial and the Taylor remainder of the dephasing bound are taken "
+        "for the requested degree; variants on the short axis rely on causality of the scheme "
+        "(a run on a shorter axis with the same step is a prefix of the longer run); quick "
+        "tier: no expansion-order variants for time-dependent tensors with a cut-off time and "
+        "on the non-dyadic axes (the short axis would have to contain the cut-off time)",
+        "conversion-after-construction histories: the 12 tensors of a grid point are built "
+        "with the others before the first context; their steps are interleaved (all first "
+        "calls, all conversions, all later calls) so that every context is entered once per "
+        "stage; one fresh initial-state object per call, created outside the contexts",
+        "time-axis alphabet: 'm x dt' is given to TimeAxis as the double m*dt and as the "
+        "double nearest to the decimal number; both are multiples of the bath step for the "
+        "caller, the package counts the bath steps per propagation step by rounding the "
+        "quotient; Nref = 1 on a coarser axis is compared with the analytic solution under "
+        "the first-order bound of the step m*dt (the rate is sampled at one point of the "
+        "step, which is all the bound assumes)",
         "shared-initial-state histories use one general initial state (full rank, all elements "
         "non-zero, complex128) and its real part stored as float64 (sequences of hist - 1 "
         "calls); the fresh-object result is tied to the spanning set by "
@@ -1316,6 +1720,13 @@ def run(run):
                                                        for v in _refinements(False)],
                                   "time_dependent": [_vlab(v, True) for v in _refinements(True)],
                                   "stored_points_of_refined_axes": REFNC[run.tier]},
+                  "methods": ["default"] + list(METHODS),
+                  "conversion_after_construction_histories": len(PRES) * len(BASES),
+                  "time_axis_alphabet": {
+                      "bath_steps_fs": sorted({c["dt"] for c in secs[2][1] + secs[3][1]}),
+                      "ratios": sorted({m for c in secs[2][1] + secs[3][1]
+                                        for m in (c.get("ratios") or NREFS)}),
+                      "forms_of_the_multiple": list(STEPFORMS)},
                   "shared_initial_state_sequences": {"quick": 9, "thorough": 27}[run.tier]}
     worst = {}
     for sect, cs in secs:
